@@ -5,6 +5,9 @@ Model: Model/ForcingGrids.lean (`markerPos`, `markerVel`, `bodyFixedArm`, `surfa
 import SophtVerif.Model.ForcingGrids
 import Mathlib.Tactic.Ring
 import Mathlib.Tactic.LinearCombination
+import Mathlib.Tactic.NormNum
+import Mathlib.Tactic.FinCases
+import Mathlib.Data.Rat.Defs
 
 set_option linter.unusedVariables false
 set_option linter.unusedSectionVars false
@@ -80,5 +83,21 @@ theorem C09_cylinder_2d (Q : Matrix (Fin 3) (Fin 3) R) (V Ω r : V3 R)
   obtain ⟨q0, q1⟩ := hQ
   constructor <;>
     simp [markerVel, crossProduct, mulVec, dotProduct, Fin.sum_univ_three, h0, h1, hr, q0, q1] <;> try ring
+
+/-! ### non-vacuity: the hypotheses are met by concrete non-trivial data (over ℚ) -/
+
+/-- a proper rotation (quarter turn about z) is orthogonal, and (3/5, 4/5) lies on the unit circle: the distance
+theorem applies to it and gives the squared distance (2·(1/2))² = 1 -/
+example :
+    let Q : Matrix (Fin 3) (Fin 3) ℚ := !![0, 1, 0; -1, 0, 0; 0, 0, 1]
+    Q * Qᵀ = 1 ∧ ((3 / 5 : ℚ)) ^ 2 + (4 / 5) ^ 2 = 1 ∧
+      surfaceArm Q 2 (1 / 2) (3 / 5) (4 / 5) ⬝ᵥ surfaceArm Q 2 (1 / 2) (3 / 5) (4 / 5) = 1 := by
+  intro Q
+  have hQ : Q * Qᵀ = 1 := by
+    ext i j; fin_cases i <;> fin_cases j <;> simp [Q, Matrix.mul_apply, Fin.sum_univ_three]
+  have hcs : ((3 / 5 : ℚ)) ^ 2 + (4 / 5) ^ 2 = 1 := by norm_num
+  refine ⟨hQ, hcs, ?_⟩
+  rw [C09_surface_marker_distance Q hQ 2 (1 / 2) (3 / 5) (4 / 5) hcs]
+  norm_num
 
 end Sopht.Props.C09
